@@ -79,6 +79,14 @@ CHECKS = {
                 text="Value level: ChaCha refill/refill4, the BLAKE-256/512 compression dispatcher and JH f8 are evaluated THROUGH their dispatchers on symbolic inputs in every build configuration - std run-time dispatch with all arms joined over free CPU-detection symbols, no_simd portable, and (thorough) five no-std builds with compile-time features sse2..avx2 - and must equal the one reference definition, hence each other; no arm may contain an operand-dependent panic. Structure: feature adequacy of all 39 run-time arms (required <= enabled <= implied by dominating detection), one fn_impl body per site with positional forwarding, Machine::instance() only in arms and only via unsafe (compile_fail witness).",
                 note="Vocabulary-level equality per backend is C12/C13. SSE4.1 and AVX machines are the same types. Groestl's private dispatcher is not a ppv-lite86 backend and is not covered here. Big-endian cfg twins are not compiled on this target.",
                 technique="value graphs through dispatchers in 7 configurations + target-feature dataflow over the mono call graph with dominators"),
+    "C02": dict(level="other", design="3/C02",
+                text="Bounded-history value graphs: for a finite family of seek/apply/current_pos histories around all the boundaries the property names (mid-block seeks, block edges, the low counter word's carry, the end of the 32-bit keystream, the top of the u64 range; re-seeking, repeated positions, requests after a failed request) every processed byte equals data XOR keystream[absolute position] for symbolic key/nonce/data, try_current_pos equals the absolute position after every step, the key and nonce words never change, and no overflow/bounds assertion or panic call is reachable (dev-profile MIR, so debug-only panics count). try_seek::<T> for all 7 SeekNum types x boundary values. The Buffer logic is interpreted from its real MIR; only refill/refill4 are replaced by their C14 semantics.",
+                note="Sentence 1 of the property for ARBITRARY histories is not decided: that needs an inductive invariant over unbounded histories, which is outside this technique. The family is finite in operation sequences (quick ~520, thorough ~9000), complete in contents.",
+                technique="abstract interpretation of the real buffering code over symbolic contents for an enumerated family of operation sequences (positions/lengths are the case-split selectors)"),
+    "C11": dict(level="other", design="3/C11",
+                text="Same engine on histories around the limits: requests crossing 2^38 bytes on the IETF cipher fail with the data graph, the reported position and later behaviour unchanged; requests and seeks ending exactly at the limit succeed; try_seek past the end is LoopError for every SeekNum type; the counter's carry never reaches nonce / stream-id words (state invariant after every step, all 7 aliases in thorough); 64-bit variants serve every u64 position and report OverflowError only for positions that do not fit the requested type.",
+                note="Finite family of histories (symbolic contents); 'exactly 2^38 bytes over arbitrary histories' is not decided. The four genuine defects this check found (panic in seek32, counter carry into the nonce, len underflow, unimplemented current_pos) are fixed in /repo.",
+                technique="abstract interpretation over an enumerated family of operation sequences + state invariant"),
 }
 
 REASONS = {}
